@@ -537,7 +537,9 @@ func init() {
 				c02PureSpace("pure-depth2", newDocSet(c02Successors(docs2), true)),
 				c02BatchSpace(c02Docs(2)),
 			}
-			h := buildC02Hist(c02Docs(ht), hd+1)
+			// handler level: also documents that start with U+FEFF (a byte order mark is part of the client's text)
+			hdocs := append(append([]string{}, c02Docs(ht)...), "\ufeff", "\ufeffa\n")
+			h := buildC02Hist(hdocs, hd+1)
 			for k := 0; k <= hd; k++ {
 				sp = append(sp, c02HandlerSpace(fmt.Sprintf("handlers-level%d", k), h, k))
 			}
@@ -550,7 +552,7 @@ func init() {
 			if tier == "thorough" {
 				bd = 2
 			}
-			sp = append(sp, c02HandlerBatchSpace(c02Docs(bd)))
+			sp = append(sp, c02HandlerBatchSpace(append(append([]string{}, c02Docs(bd)...), "\ufeffa\n")))
 			return sp
 		},
 	})
